@@ -244,7 +244,7 @@ def run(ctx):
         N = many_n[req]
         tail = resp[-900:]
         for want in (f"Vector {{ component_type: Token({N + 1}), component_count: 4 }}", f"Function {{ return_type: Token({N + 1}),",
-                     f"res=Token({N + 1}) ", "C=Storage { data: [Float(1.0)] }"):
+                     f"res=Token({N + 1}) ", "C=Storage { data: [Float(1.0)]"):
             if want not in tail:
                 return f"with {N} struct types declared between the int and the float type, the lifted module lacks `{want}`: ...{tail[tail.find('Float {'):][:300]}"
         if resp.count("Struct {") != N:
